@@ -1066,3 +1066,62 @@ def r14(R):
         R.violation(v.node, v.message, g, v.path,
                     key='pack time of the changes not raised first, or '
                         'moved back')
+
+
+# ------------------------------------------------------------------ C08.R15
+@rule('C08.R15', 'a demo storage does not wait for its changes storage\'s '
+      'commit lock while it holds the storage lock it shares with that '
+      'storage (a pack of a FileStorage takes the storage lock while '
+      'holding the commit lock: the other order is a dead-lock)',
+      props=['C05'], min_instances=1)
+def r15(R):
+    from ..locks import explore_locksets
+    from ..twopc import DS
+    cls = R.prog.cls(DS)
+    # the fact the rule rests on: the demo storage uses the changes
+    # storage's own lock object
+    cp = R.method(cls, '_copy_methods_from_changes')
+    shares = any(isinstance(c, ast.Constant) and c.value == '_lock'
+                 for c in ast.walk(cp.node))
+    R.instance('DemoStorage shares the storage lock of its changes',
+               shares=shares)
+    if not shares:
+        return
+    BLOCKING = ('tpc_begin', 'pack')      # wait for the commit lock
+    n = 0
+    for name, f in sorted(cls.methods.items()):
+        if not any(isinstance(c, ast.Call) and dotted(c.func) and
+                   dotted(c.func)[:2] == ('self', 'changes') and
+                   dotted(c.func)[-1] in BLOCKING
+                   for c in walk_local(f.node)):
+            continue
+        g, b, F = R.cfg(f, cls, max_depth=0)
+        n += 1
+        R.instance('DemoStorage.%s calls into the changes storage\'s '
+                   'commit protocol' % name)
+
+        def check(node, held, F=F, name=name):
+            for op in F.ops(node):
+                if op.kind == 'call' and op.path is not None and \
+                        tuple(op.path[:2]) == ('self', 'changes') and \
+                        op.path[-1] in BLOCKING and \
+                        ('self', '_lock') in held:
+                    return ('DemoStorage.%s calls `%s` while holding '
+                            'self._lock, which is the changes storage\'s '
+                            'own storage lock: the call waits for that '
+                            'storage\'s commit lock, and a FileStorage that '
+                            'is being packed takes the storage lock while '
+                            'holding the commit lock -- a commit that '
+                            'begins in the pack\'s final phase blocks '
+                            'packer, committer and every reader for ever' %
+                            (name, '.'.join(op.path)))
+            return None
+
+        vs, stats = explore_locksets(g, F, check)
+        R.count(stats)
+        for v in vs[:1]:
+            R.violation(v.node, v.message, g, v.path,
+                        key='changes storage\'s commit lock awaited under '
+                            'the shared storage lock')
+    R.require(n >= 1, 'DemoStorage no longer delegates tpc_begin/pack to '
+              'its changes')
